@@ -60,7 +60,7 @@ def prove_path(entry, path, opts):
         checks = []
         # sign obligations first (they may force a retry)
         signchecks = []
-        for k, (N, D, kk) in enumerate(C.signs):
+        for k, (N, D, kk, sg) in enumerate(C.signs):
             signchecks.append(('sign:%d' % k, pc + ["(< %s 0)" % C.rat_smt((N, D))]))
         feas = [('feasible', pc)]
         r0 = smt.run_checks(pre, feas + signchecks, per_check_ms=opts.get('per_check_ms', 20000), jobs=2)
@@ -68,16 +68,17 @@ def prove_path(entry, path, opts):
         if fz == 'unsat' or infeasible_const:
             res['feasible'] = False
             break
-        bad = [k for k, (N, D, kk) in enumerate(C.signs) if r0['sign:%d' % k][0] != 'unsat']
+        bad = [k for k, (N, D, kk, sg) in enumerate(C.signs) if r0['sign:%d' % k][0] != 'unsat']
         if not bad: break
         # flip signs that the solver refuted (sat) and retry; unknown stays as undecided
         flipped = False
         for k in bad:
-            N, D, kk = C.signs[k]
-            if r0['sign:%d' % k][0] == 'sat' and kk not in sign_override:
-                w = C.witness(N) / C.witness(D)
-                sign_override[kk] = -1 if w >= 0 else 1
-                flipped = True
+            N, D, kk, sg = C.signs[k]
+            if r0['sign:%d' % k][0] == 'sat':
+                if kk not in sign_override:
+                    sign_override[kk] = -sg; flipped = True      # try the opposite sign of the witness choice
+                elif sign_override[kk] != 0:
+                    sign_override[kk] = 0; flipped = True        # neither sign holds on the whole path: keep |e| as an atom
         if not flipped: break
     res['cf_time'] = round(C.time, 3); res['maxsize'] = C.maxsize; res['axioms'] = sorted(C.axioms)
     res['atoms'] = len(C.used_atoms()); res['nodes'] = len(C.cone)
@@ -93,7 +94,7 @@ def prove_path(entry, path, opts):
     res['feasible'] = True if fz == 'sat' else None
     # side obligations
     side = []
-    for k, (N, D, kk) in enumerate(C.signs):
+    for k, (N, D, kk, sg) in enumerate(C.signs):
         side.append(('sign:%d' % k, r0['sign:%d' % k][0]))
     sidechecks = []
     for k, d in enumerate(C.denominators()):
